@@ -12,6 +12,12 @@ func (c *Conversation) generateNewDHKeyPair() error {
 func (c *Conversation) akeHasFinished() error {
 	c.keys.wipe()
 	c.keys = c.ake.keys
+	if c.ake.theirKey != nil {
+		// the exchange has been verified: its results now describe the session
+		c.ssid = c.ake.ssid
+		c.theirKey = c.ake.theirKey
+		c.sentRevealSig = c.ake.sentRevealSig
+	}
 	c.ake.wipe(false)
 
 	previousMsgState := c.msgState
@@ -169,7 +175,10 @@ func (s authStateAwaitingDHKey) receiveDHKeyMessage(c *Conversation, msg []byte)
 	c.ake.keys.setTheirCurrentDHPubKey(c.ake.theirPublicValue)
 	c.ake.keys.setOurCurrentDHKeys(c.ake.secretExponent, c.ake.ourPublicValue)
 
-	c.sentRevealSig = true
+	c.ake.sentRevealSig = true
+	if c.msgState != encrypted {
+		c.sentRevealSig = true
+	}
 
 	return authStateAwaitingSig{revealSigMsg: revealSigMsg}, revealSigMsg, nil
 }
@@ -212,7 +221,7 @@ func (s authStateAwaitingRevealSig) receiveRevealSigMessage(c *Conversation, msg
 	c.ake.keys.setTheirCurrentDHPubKey(c.ake.theirPublicValue)
 	c.ake.keys.setOurCurrentDHKeys(c.ake.secretExponent, c.ake.ourPublicValue)
 
-	c.sentRevealSig = false
+	c.ake.sentRevealSig = false
 
 	return authStateNone{}, sigMsg, c.akeHasFinished()
 }
